@@ -14,7 +14,9 @@ EXPLANATION = (
     'the key of every sort/min/max over entries is total: a key alternative that may be '
     'None next to non-None ones makes sorted() raise TypeError for one undated entry among '
     'dated ones; (R19.3) names in info/ without the .trashinfo suffix are filtered or '
-    'warned about per name.  Output equality "as if the malformed ones were absent" is '
+    'warned about per name; (R19.6) no raise the programmer marked as "cannot happen" '
+    '(constant-message RuntimeError/ValueError in a defensive branch) is live below a '
+    'directory listing: the producers\' tags and classes are all handled.  Output equality "as if the malformed ones were absent" is '
     'not decided.')
 ASSUMPTIONS = ['text-mode open() uses strict error handling (locale codec)',
                'A5: KeyError/IndexError/AttributeError are not modelled']
